@@ -126,11 +126,23 @@ func (w *World) opLongHistory(step int) {
 			continue
 		}
 		if i%16 == 5 {
-			if !pub.VerifyRaw(digest[:], r, s) {
+			var vok bool
+			if po := protect(func() { vok = pub.VerifyRaw(digest[:], r, s) }); po.panicked {
+				w.r.Violate("C08", "verification-panics", "VerifyRaw:long-history", step, "%s: VerifyRaw of the signer's own signature panicked: %s", desc, po.panicMsg)
+				bad++
+				continue
+			}
+			if !vok {
 				w.r.Violate("C08", "lib-verify-rejects", "VerifyRaw:long-history", step, "%s: VerifyRaw rejects the signer's own signature (r=%x s=%x)", desc, rb, sb)
 				bad++
 			}
-			rq, rerr := secec.RecoverPublicKey(digest[:], r, s, v)
+			var rq *secec.PublicKey
+			var rerr error
+			if po := protect(func() { rq, rerr = secec.RecoverPublicKey(digest[:], r, s, v) }); po.panicked {
+				w.r.Violate("C08", "verification-panics", "RecoverPublicKey:long-history", step, "%s: RecoverPublicKey panicked: %s", desc, po.panicMsg)
+				bad++
+				continue
+			}
 			if rerr != nil || !bytes.Equal(rq.Bytes(), sg.qBytes) {
 				w.r.Violate("C08", "lib-recover-disagrees", "RecoverPublicKey:long-history", step, "%s: RecoverPublicKey(v=%d) err=%v does not return the signer", desc, v, rerr)
 				bad++
@@ -214,7 +226,13 @@ func (w *World) checkEncodingsOfEvent(step int, desc string, sg *signer, digest,
 			ok = false
 			continue
 		}
-		if !pub.Verify(digest, sig, o) {
+		var vok bool
+		if po := protect(func() { vok = pub.Verify(digest, sig, o) }); po.panicked {
+			w.r.Violate("C08", "verification-panics", fmt.Sprintf("Verify:enc=%d", enc), step, "%s: Verify(enc=%d) of the signer's own signature panicked: %s", desc, enc, po.panicMsg)
+			ok = false
+			continue
+		}
+		if !vok {
 			w.r.Violate("C08", "lib-verify-rejects", fmt.Sprintf("Verify:enc=%d:rejmal=false", enc), step, "%s: Verify(enc=%d) rejects the signer's own signature %x", desc, enc, sig)
 			ok = false
 		}
